@@ -620,7 +620,8 @@ def stream_for0(pid, tier, seed):
     if pid == "C10":
         return defects + pulls_stream(rng, tier, pid, prof=dict(skip=True, owners=["intoseq all", "intoseq 1", "intoseq 2", "intoseq 0"]), exh=False, n_random=2000 if not big else 80000) + liar_stream(rng, pid) + zst_stream(rng, pid) + \
             [c for c in boundary_stream(rng, tier) if c.kind == "range" and c.owner != "drop"][::2] + next_then_nth_stream(rng, pid) + \
-            spare_stream(rng, pid) + pod_stream(rng, pid) + huge_then_skip_stream(rng, pid)
+            spare_stream(rng, pid) + pod_stream(rng, pid) + huge_then_skip_stream(rng, pid) + \
+            [c for c in half_stream(rng, pid, kinds=("iter", "iterref", "vec")) if c.owner != "drop"]
     if pid == "C11":
         return defects + pulls_stream(rng, tier, pid, prof=dict(skip=True, query=True, drain=0.3), n_random=2000 if not big else 80000, exh=False) + \
             exhaustive("C11-x2", small_bases(rng, [[["next", "len"], ["chunk 2 all", "hasmore"]], [["hasmore", "next"], ["skip", "len"]]], ["slice", "vec", "range", "iter"]), 2, 8 if not big else 11) + \
